@@ -24,6 +24,7 @@ import (
 )
 
 func init() {
+	commands["pipe-conform"] = pipeConform
 	commands["pipe-run"] = pipeRun
 	commands["pipe-materialize"] = pipeMaterialize
 	commands["pipe-trace"] = pipeTrace
@@ -499,6 +500,12 @@ func loadCases(path string) ([]*pCase, error) {
 		if err := json.Unmarshal([]byte(s[5:]), &pc); err != nil {
 			return fmt.Errorf("bad CASE: %v: %.300s", err, s)
 		}
+		var rawFields map[string]json.RawMessage
+		if json.Unmarshal([]byte(s[5:]), &rawFields) == nil {
+			delete(rawFields, "expect")
+			delete(rawFields, "raw")
+			pc.Raw, _ = json.Marshal(rawFields)
+		}
 		if pc.ID == "" {
 			h := sha256.Sum256([]byte(s))
 			pc.ID = "c" + hex.EncodeToString(h[:6])
@@ -652,6 +659,80 @@ func pipeTrace(args []string) error {
 				}
 			}
 			emit(rec.ID, n, map[string]any{"event": "FsDelta", "changed": len(r.Fs.Created) + len(r.Fs.Modified) + len(r.Fs.Deleted) + len(r.Fs.Touched), "specChanged": specChanged})
+			emit(rec.ID, n, map[string]any{"event": "Exit", "code": r.Exit, "panicked": r.Panicked, "timedOut": r.TimedOut, "msgEmpty": len(r.ErrLines) == 0})
+		}
+		return nil
+	})
+}
+
+// pipe-conform writes, for every run of a recording, the header and events spec/PipelineConform.tla replays through the session
+// machine of Pipeline.tla: the project as TLC printed it (its cfg extended with the command, the OpenAPI version of that run and
+// asCoded), the hook events in order and the Exit measurement.
+func pipeConform(args []string) error {
+	fs := flag.NewFlagSet("pipe-conform", flag.ExitOnError)
+	recs := fs.String("records", "", "")
+	outp := fs.String("out", "", "")
+	idx := fs.String("index", "", "")
+	maxRuns := fs.Int("max-runs", 0, "0 = all")
+	fs.Parse(args)
+	f, err := os.Create(*outp)
+	if err != nil {
+		return err
+	}
+	defer f.Close()
+	fi, err := os.Create(*idx)
+	if err != nil {
+		return err
+	}
+	defer fi.Close()
+	runs := 0
+	emit := func(id, run string, ev map[string]any) {
+		fmt.Fprintln(f, mustJSON(ev))
+		fmt.Fprintln(fi, id+" "+run)
+	}
+	return readLines(*recs, func(line []byte) error {
+		var rec caseRecord
+		if err := json.Unmarshal(line, &rec); err != nil {
+			return err
+		}
+		if rec.Case == nil || len(rec.Case.Raw) == 0 || rec.Build != "" || len(rec.Notes) > 0 {
+			return nil
+		}
+		names := make([]string, 0, len(rec.Runs))
+		for n := range rec.Runs {
+			names = append(names, n)
+		}
+		sort.Strings(names)
+		for _, n := range names {
+			r := rec.Runs[n]
+			if *maxRuns > 0 && runs >= *maxRuns {
+				return nil
+			}
+			if r.Order != "" {
+				continue // forced schedules are C13's business; the Permute events carry no state
+			}
+			var cs map[string]any
+			if json.Unmarshal(rec.Case.Raw, &cs) != nil {
+				continue
+			}
+			cfg, _ := cs["cfg"].(map[string]any)
+			if cfg == nil {
+				continue
+			}
+			version := rec.Case.Cfg.Version
+			if n == "alt" {
+				version = otherVersion(version)
+			}
+			cfg["version"] = version
+			cfg["cmd"] = strings.TrimPrefix(r.Cmd, "generate ")
+			cfg["asCoded"] = true
+			delete(cs, "id")
+			runs++
+			emit(rec.ID, n, map[string]any{"event": "Run", "case": cs})
+			for _, ev := range r.Trace {
+				delete(ev, "seq")
+				emit(rec.ID, n, ev)
+			}
 			emit(rec.ID, n, map[string]any{"event": "Exit", "code": r.Exit, "panicked": r.Panicked, "timedOut": r.TimedOut, "msgEmpty": len(r.ErrLines) == 0})
 		}
 		return nil
